@@ -898,12 +898,15 @@ def explore(
     max_paths: int = 512,
     timeout_ms: int = 10000,
     expected_exceptions: tuple = (Exception,),
+    prefix0: Optional[List[bool]] = None,
 ) -> List[PathResult]:
     """Run ``thunk`` on every feasible path.  ``post(ctx, outcome, value)`` is called at the end
-    of every path (inside the path's context) to emit obligations."""
+    of every path (inside the path's context) to emit obligations.
+    ``prefix0`` restricts the exploration to the sub-tree in which the first len(prefix0) genuine forks take the given
+    choices (the 2^d prefixes of length d together cover every path; paths with fewer forks are explored by several shards)."""
     global _CTX
     results: List[PathResult] = []
-    work: List[List[bool]] = [[]]
+    work: List[List[bool]] = [list(prefix0 or [])]
     n = 0
     while work:
         prefix = work.pop()
